@@ -218,6 +218,9 @@ class EvalMixin(object):
         if isinstance(a, Arr) or isinstance(b, Arr):
             return self.arr_binop(op, a, b, line)
         if isinstance(a, (list, tuple, str)) or isinstance(b, (list, tuple, str)):
+            if op == '+' and ((isinstance(a, str) and isinstance(b, (T, int, float, bool)) and not isinstance(b, str)) or
+                              (isinstance(b, str) and isinstance(a, (T, int, float, bool)) and not isinstance(a, str))):
+                self.raise_exc('TypeError', 'can only concatenate str (not a number) to str', line)
             if isinstance(a, T) or isinstance(b, T):
                 # list * symbolic int etc.
                 raise Unsupported('sequence arithmetic with a symbolic operand (line %s)' % line)
